@@ -50,10 +50,13 @@ type BtcWallet struct {
 	OutsBefore int
 	OutsAfter  int
 	EqualValue bool // an output before the swap output carries exactly the swap amount
-	Published  []*BtcChainTx
-	Labels     map[string]string
-	PublishErr error
-	OnPublish  func(tx *BtcChainTx)
+	// NestedInputs is the number of funding inputs that are nested segwit (np2wkh) coins: finalizing adds a
+	// scriptSig to them, so the id of the final transaction differs from the id of the funded, unsigned one
+	NestedInputs int
+	Published    []*BtcChainTx
+	Labels       map[string]string
+	PublishErr   error
+	OnPublish    func(tx *BtcChainTx)
 }
 
 func NewBtcWallet(seed string) *BtcWallet {
@@ -161,6 +164,11 @@ func (k *btcKit) FinalizePsbt(ctx context.Context, in *walletrpc.FinalizePsbtReq
 	final := p.UnsignedTx.Copy()
 	for i := range final.TxIn {
 		final.TxIn[i].Witness = wire.TxWitness{bytes.Repeat([]byte{0x30}, 71), k.w.Key.PubKey().SerializeCompressed()}
+		if i < k.w.NestedInputs {
+			// np2wkh: scriptSig = push of the 22-byte witness program
+			prog := append([]byte{0x00, 0x14}, btcutil.Hash160(k.w.Key.PubKey().SerializeCompressed())...)
+			final.TxIn[i].SignatureScript = append([]byte{byte(len(prog))}, prog...)
+		}
 	}
 	var raw, signed bytes.Buffer
 	if err := final.Serialize(&raw); err != nil {
